@@ -6,6 +6,9 @@ BASE=${SEED_RR:-/tmp/seedrr}; mkdir -p $BASE; : > $BASE/matrix.txt
 extra() {
   case $1 in
     C06-r4) echo "C06 C01 C09";; C06-r5) echo "C06 C01";; C11-r2) echo "C11 C06";;
+    C04-r6) echo "C04 C19";; C09-r6) echo "C09 C10";; C15-r6) echo "C15 C01";;
+    C09-r7) echo "C09 C11";; C13-r7) echo "C13 C06";; C01-r8) echo "C01 C06";;
+    C12-r8) echo "C12 C06";; C16-r8) echo "C16 C06";;
     *) echo "";;
   esac
 }
